@@ -32,6 +32,30 @@ CT = "workflows.context.context_types"
 TIMER_WORDS = ("delay", "deadline", "wake", "not_before", "scheduled_at", "due_at", "retry_at", "expires", "timeout_at")
 
 
+
+def _timeout_elapsed(atom: str, pol: bool) -> bool:
+    """Does this path fact say "at least idle_timeout has passed since the idle marker"?  By role, on the fact with locals
+    expanded: a comparison between a time difference `now(...) - <…>.idle_since` (in seconds) and `<…>._idle_timeout`, of the
+    polarity / direction that puts the difference at or above the timeout."""
+    try:
+        e = ast.parse(atom, mode="eval").body
+    except SyntaxError:
+        return False
+    if not (isinstance(e, ast.Compare) and len(e.ops) == 1):
+        return False
+    l, r, op = ast.unparse(e.left), ast.unparse(e.comparators[0]), e.ops[0]
+
+    def is_elapsed(t: str) -> bool:
+        return "idle_since" in t and "now(" in t and "-" in t
+
+    def is_timeout(t: str) -> bool:
+        return t.endswith("_idle_timeout")
+    if is_elapsed(l) and is_timeout(r):        # elapsed < timeout  must be false / elapsed >= timeout true
+        return (isinstance(op, (ast.Lt, ast.LtE)) and not pol) or (isinstance(op, (ast.Gt, ast.GtE)) and pol)
+    if is_timeout(l) and is_elapsed(r):        # timeout > elapsed  must be false / timeout <= elapsed true
+        return (isinstance(op, (ast.Gt, ast.GtE)) and not pol) or (isinstance(op, (ast.Lt, ast.LtE)) and pol)
+    return False
+
 def run(chk) -> None:
     repo = chk.repo
     from ._engine import engine_view
@@ -133,7 +157,7 @@ def run(chk) -> None:
         for n in cfr.nodes_of(enclosing_stmt(c)):
             f = facts_at(cfr, n, expand_locals=True)
             ok1 = any("idle_since is None" in a and p is False for a, p in f) or any("idle_since" in a and "None" in a and not p for a, p in f)
-            ok2 = has_fact(f, "elapsed < self._idle_timeout", False)
+            ok2 = any(_timeout_elapsed(a, pol) for a, pol in f)
             ok3 = has_fact(f, "run_id not in self._active_run_ids", False) or has_fact(f, "run_id in self._active_run_ids")
             chk.ob("C14.R2", "the in-process release aborts a run only when it is marked idle", ok1, m=mi, node=c, fn=rel, instance="release:idle-marker", reason=f"guards {sorted(f)[:6]}")
             chk.ob("C14.R2", "… and only after idle_timeout has elapsed since the marker", ok2, m=mi, node=c, fn=rel, instance="release:timeout-elapsed", reason=f"guards {sorted(f)[:6]}")
@@ -164,6 +188,11 @@ def _marker_retraction(chk, repo) -> None:
 
 
 TWINS = [
+    Twin("benign: elapsed time and marker held in differently named locals, comparison reversed", "packages/llama-agents-server/src/llama_agents/server/_runtime/idle_release_runtime.py",
+         "            elapsed = (\n                datetime.now(timezone.utc) - handlers[0].idle_since\n            ).total_seconds()\n            if elapsed < self._idle_timeout:\n                return\n",
+         "            marked_at = handlers[0].idle_since\n            idle_for = datetime.now(timezone.utc) - marked_at\n            if self._idle_timeout > idle_for.total_seconds():\n                return\n", None),
+    Twin("release as soon as the marker is set (timeout test inverted)", "packages/llama-agents-server/src/llama_agents/server/_runtime/idle_release_runtime.py",
+         "            if elapsed < self._idle_timeout:\n                return\n", "            if elapsed > self._idle_timeout:\n                return\n", "C14.R2"),
     Twin("due wake-up taken with list.pop(0) instead of heapq.heappop", CL_REL, "heapq.heappop(self.scheduled_wakeups)", "self.scheduled_wakeups.pop(0)", "C14.R2"),
     Twin("first wake-up deleted by index", CL_REL, "            _, _, tick = heapq.heappop(self.scheduled_wakeups)\n", "            _, _, tick = self.scheduled_wakeups[0]\n            del self.scheduled_wakeups[0]\n", "C14.R2"),
     Twin("benign: heap popped through a local alias", CL_REL, "            _, _, tick = heapq.heappop(self.scheduled_wakeups)\n", "            _heap = self.scheduled_wakeups\n            _, _, tick = heapq.heappop(_heap)\n", None),
